@@ -278,7 +278,10 @@ def attack(a, d, s):
   # Configure sustain possibilities
   if isinstance(s, Iterable):
     it_s = iter(s)
-    s = next(it_s)
+    try:
+      s = next(it_s)
+    except StopIteration: # Empty sustain, empty envelope (PEP 479)
+      return
   else:
     it_s = None
 
